@@ -372,6 +372,7 @@ install_hooks()
 {
     mock::Hooks& H = mock::hooks();
     H.enter = [](const char* call, int) { yield_point(call); };
+    H.leave = [](const char* call, int) { yield_point(call); };
     H.cam_set = [](int inst, struct CameraProperties* p) -> int {
         CamState& c = W->cam[camdev_index(mock::instance(inst).dev)];
         if (c.script.fail_set)
@@ -504,6 +505,7 @@ install_hooks()
         W->frames[std::make_tuple(fr.camdev, fr.acq, fr.hw)] = fr;
         W->delivered[fr.camdev].push_back(fr);
         probe("n.frames_delivered");
+        progress_kick();
         return Device_Ok;
     };
     H.st_set = [](int, const struct StorageProperties*) -> int {
@@ -570,6 +572,7 @@ install_hooks()
         pk.bytes.assign((const uint8_t*)f, (const uint8_t*)f + *nbytes);
         s.packets.push_back(std::move(pk));
         probe("n.appends");
+        progress_kick();
         return DeviceState_Running;
     };
 }
@@ -789,6 +792,11 @@ monitor_thread(int s, Op op, bool drainer = false)
     for (int64_t it = 0; it < maxmaps && !w->shut &&
                          (drainer ? !w->drain_stop : !w->mon_stop[s]);
          ++it) {
+        if (drainer && w->mon_tid[s] >= 0 && !finished(w->mon_tid[s])) {
+            // the generated client is still polling: stay out of its way
+            sleep_ns(2000000);
+            continue;
+        }
         struct VideoFrame *beg = 0, *end = 0;
         uint64_t invoked = ++w->seq;
         if (!mo.first_map_seq)
@@ -837,6 +845,7 @@ monitor_thread(int s, Op op, bool drainer = false)
             walk_packet((const uint8_t*)beg, nbytes, where,
                         [&](const struct VideoFrame* f) { fr.push_back(f); });
             probe("n.monitor_nonempty_maps");
+            progress_kick();
         }
         // per-frame checks
         for (const struct VideoFrame* f : fr) {
@@ -1155,9 +1164,11 @@ struct RtHarness : Harness
                     sc[s].trig = 1;
                 if (abort_prof && !last && g.chance(0.2))
                     sc[s].n = INF_FRAMES;
-                if (prog_prof && g.chance(0.15))
+                // device switches between acquisitions (one stream only: a
+                // device cannot be opened by both streams at once)
+                if (prog_prof && s == 0 && g.chance(0.25))
                     sc[s].cam = "cB";
-                if (prog_prof && g.chance(0.15))
+                if (prog_prof && s == 0 && g.chance(0.25))
                     sc[s].sto = "sB";
                 maxframe = std::max(maxframe, frame_bytes(sc[s], false));
                 maxout = std::max(maxout, frame_bytes(sc[s], sc[s].avg > 1));
@@ -1436,12 +1447,7 @@ struct RtHarness : Harness
             // (a client that walks away for good is only judged with abort)
             w->drain_stop = false;
             for (int s = 0; s < 2; ++s) {
-                bool live = w->mon_tid[s] >= 0 && !finished(w->mon_tid[s]);
-                if (w->mon_ever[s] && !live) {
-                    if (w->mon_tid[s] >= 0) {
-                        join(w->mon_tid[s]);
-                        w->mon_tid[s] = -1;
-                    }
+                if (w->mon_ever[s]) {
                     Op dop = parse_op("mon poll=1000 k=all hold=0");
                     std::string nm = "monitor-standin" + std::to_string(s);
                     w->drainers.push_back(spawn(
@@ -1456,7 +1462,7 @@ struct RtHarness : Harness
         }
         int budget = expect_progress(
           is_abort ? "C07.abort_does_not_return" : "C07.stop_does_not_return",
-          is_abort ? "acquire_abort returns" : "acquire_stop returns", 600000);
+          is_abort ? "acquire_abort returns" : "acquire_stop returns", 300000);
         logline("CLIENT %s invoked", is_abort ? "abort" : "stop");
         enum AcquireStatusCode rc =
           is_abort ? acquire_abort(w->rt) : acquire_stop(w->rt);
@@ -1540,11 +1546,15 @@ struct RtHarness : Harness
                     w->running_expected = true;
                 }
                 probe("n.starts");
-            } else if (op.name == "stop") {
-                end_acquisition("stop", async_abort_pending);
+            } else if (op.name == "stop" || op.name == "abort") {
+                end_acquisition(op.name.c_str(),
+                                op.name == "stop" && async_abort_pending);
                 async_abort_pending = false;
-            } else if (op.name == "abort") {
-                end_acquisition("abort", false);
+                // ... and the client does not call into the runtime again
+                // before its own aborting thread is back
+                for (int t : abort_tids)
+                    join(t);
+                abort_tids.clear();
             } else if (op.name == "abort_async") {
                 int64_t at = op.i("at", 0);
                 AcqRec* a = current_acq();
@@ -1553,6 +1563,10 @@ struct RtHarness : Harness
                 async_abort_pending = true;
                 int t = spawn("aborter", [w, at, a] {
                     sleep_ns((uint64_t)at * 1000);
+                    // the client's threads coordinate: an abort meant for an
+                    // acquisition that has already been ended is not issued
+                    if (a->end_returned_seq)
+                        return;
                     if (a->end_invoked_seq == 0) {
                         a->end_invoked_seq = ++w->seq;
                     }
@@ -1560,7 +1574,7 @@ struct RtHarness : Harness
                     int budget =
                       expect_progress("C07.abort_does_not_return",
                                       "acquire_abort (other thread) returns",
-                                      600000);
+                                      300000);
                     acquire_abort(w->rt);
                     progress_done(budget);
                     probe("n.aborts");
@@ -1626,13 +1640,15 @@ struct RtHarness : Harness
             join(t);
         w->shut = true;
         int budget = expect_progress("C07.shutdown_does_not_return",
-                                     "acquire_shutdown returns", 600000);
+                                     "acquire_shutdown returns", 300000);
         acquire_shutdown(w->rt);
         progress_done(budget);
         // ---- C08: device life cycles over the whole program
         {
             std::string suffix;
-            std::string v = mock::check_protocol(true, &suffix);
+            // (a frame call racing a stop is C11's clause, not C08's)
+            std::string v =
+              mock::check_protocol(true, &suffix, "frame_outside_running");
             if (!v.empty())
                 oracle_fail(("C08." + suffix).c_str(), "%s", v.c_str());
             for (auto& I : mock::instances()) {
@@ -1722,7 +1738,7 @@ struct Reg
             "non-trivial = at least two frames were delivered and at least "
             "one append reached storage")
              .c_str(),
-           { { "plain", 6000, 120000, false } },
+           { { "plain", 2500, 50000, false } },
            { "n.appends", "reach.zero_size_frame", "reach.hardware_id_gap",
              "k.stalls", "n.monitors" });
         mk("C05", "exploration",
@@ -1733,8 +1749,8 @@ struct Reg
             "non-trivial = at least two frames were delivered and at least "
             "one append reached storage")
              .c_str(),
-           { { "plain", 4000, 80000, false },
-             { "monitor", 2000, 40000, false } },
+           { { "plain", 3000, 60000, false },
+             { "monitor", 1000, 20000, false } },
            { "n.appends", "n.monitor_nonempty_maps",
              "reach.monitor_partial_consume" });
         mk("C06", "exploration",
@@ -1744,7 +1760,7 @@ struct Reg
            (std::string(rule_common) +
             "non-trivial = the monitor mapped at least one non-empty region")
              .c_str(),
-           { { "monitor", 6000, 120000, false } },
+           { { "monitor", 2000, 40000, false } },
            { "n.monitor_nonempty_maps", "reach.monitor_partial_consume",
              "reach.monitor_holds_region", "reach.monitor_spans_acquisitions",
              "n.aborts" });
@@ -1768,7 +1784,7 @@ struct Reg
             "non-trivial = at least two frames were delivered and at least "
             "one append reached storage")
              .c_str(),
-           { { "program", 6000, 120000, false } },
+           { { "program", 4000, 80000, false } },
            { "reach.start_while_running", "n.state_queries", "n.aborts" });
         mk("C09", "fault_enumeration",
            "deterministic simulation with device faults attached to a frame "
@@ -1778,7 +1794,7 @@ struct Reg
            (std::string(rule_common) +
             "non-trivial = an injected device fault actually fired")
              .c_str(),
-           { { "fault", 6000, 120000, true } },
+           { { "fault", 1500, 30000, true } },
            { "fault.camera_frame_fails", "fault.storage_append_fails",
              "fault.camera_start_fails", "fault.storage_start_fails" });
         mk("C10", "exploration",
@@ -1789,7 +1805,7 @@ struct Reg
             "non-trivial = at least two frames were delivered and at least "
             "one append reached storage")
              .c_str(),
-           { { "avg", 6000, 120000, false } },
+           { { "avg", 10000, 200000, false } },
            { "n.appends", "reach.wraps" });
     }
 } g_reg;
